@@ -207,6 +207,10 @@ class InstGen:
             for k, ps in props.items():
                 if k in req or (not minimal and self.chance(0.6)):
                     try:
+                        if isinstance(ps, dict) and "default" in ps and ps.get("type") in ("object", "array") and \
+                                not ps.get("properties") and not ps.get("minItems") and self.chance(0.4):
+                            out[k] = {} if ps["type"] == "object" else []   # present but empty, default is not
+                            continue
                         out[k] = self.inst(ps, d + 1, minimal)
                     except GenFail:
                         if k in req:
